@@ -18,13 +18,13 @@ const c04PreBash = `echo start
 ret() { return $1; }
 x=3 y=4 n=-2 i=1 j=2 s=abcdefg e= p='*' w='a b' r=
 arr=(5 6 7)
-declare -A m=([1]=11 [i]=12 [2]=13 [i+1]=14 [1+1]=15 [3]=16 [x]=17)
+declare -A m=([1]=11 [i]=12 [2]=13 ["i+1"]=14 ["1+1"]=15 [3]=16 [x]=17 ["i + 1"]=18)
 set -- 1 2 3
 `
 
 const c04EpiBash = `
 st=$?
-echo "x=$x y=$y i=$i j=$j r=$r arr=${arr[*]} m=${m[1]},${m[i]},${m[2]},${m[i+1]},${m[1+1]},${m[3]},${m[x]},${m[4]},${m[9]}"
+echo "x=$x y=$y i=$i j=$j r=$r arr=${arr[*]} m=${m[1]},${m[i]},${m[2]},${m["i+1"]},${m["1+1"]},${m[3]},${m[x]},${m["i + 1"]},${m[4]},${m[9]},${#m[@]}"
 ret $st
 `
 
